@@ -763,6 +763,57 @@ func forcedHistory(rng *rand.Rand, id int) (lines []core.Ev, finished bool) {
 	return lines, finished
 }
 
+// ------------------------------------------------------------------------------------------ flushkv vs Close (known finding)
+
+// gateStore sits between flushkv and mapdb; its Flush parks on the gate before it is forwarded (flushkv.New accepts
+// any KVStore; the debug wrapper has no callback for Flush).
+type gateStore struct {
+	hkv.KVStore
+	arrived chan struct{}
+	release chan struct{}
+}
+
+func (g *gateStore) Flush() error {
+	g.arrived <- struct{}{}
+	<-g.release
+	return g.KVStore.Flush()
+}
+
+// flushCloseHistory: T1 calls a mutation through flushkv and is held in the Flush that follows the (already applied)
+// inner mutation; T3 reads the written value; T2 closes the store; T1 is released and returns what its Flush says.
+func flushCloseHistory(id int) (lines []core.Ev, finished bool) {
+	inner := mapdb.NewMapDB()
+	g := &gateStore{KVStore: inner, arrived: make(chan struct{}, 1), release: make(chan struct{})}
+	root := flushkv.New(g)
+	h := newHist(3)
+	finished = true
+	key, val := []byte{0, 1}, []byte{1, 1}
+	done := make(chan struct{})
+	go func() {
+		defer close(done)
+		h.do(1, &call{op: "Set", v: 1, k: key, val: val, view: root})
+	}()
+	select {
+	case <-g.arrived: // the inner Set has returned, the trailing Flush is parked
+	case <-time.After(watchdog):
+		finished = false
+	}
+	if finished {
+		h.do(3, &call{op: "Get", v: 1, k: key, view: root})
+		h.do(2, &call{op: "Close", v: 1, view: root})
+		close(g.release)
+		select {
+		case <-done:
+		case <-time.After(watchdog):
+			finished = false
+		}
+	}
+	lines = append(lines, core.Ev{"op": "reset", "cfg": core.Ev{"wrap": "flush"}, "kind": "flushclose", "id": id, "threads": 3, "procs": 16})
+	lines = append(lines, h.merged()...)
+	lines = append(lines, core.Ev{"op": "final", "finished": finished})
+	return lines, finished
+}
+
 // ------------------------------------------------------------------------------------------ bursts (race detector only)
 
 // burst: 16 goroutines hammer one store without any logging (no synchronisation added by the harness between them).
@@ -800,6 +851,7 @@ func drive(args []string) int {
 	nforced := fs.Int("forced", 60, "forced schedules (iteration held in its consumer)")
 	nburst := fs.Int("bursts", 20, "unlogged bursts of 16 goroutines (race detector)")
 	wd := fs.Int("watchdog", 20, "seconds after which a history counts as hung")
+	nfc := fs.Int("flushclose", 1, "forced schedules flushkv mutation / Close (known finding, judged by the strict cfg)")
 	fs.BoolVar(&closeAll, "closeall", false, "every free-running history: flushkv + one goroutine calling Close")
 	_ = fs.Parse(args)
 	watchdog = time.Duration(*wd) * time.Second
@@ -822,6 +874,10 @@ func drive(args []string) int {
 			_ = enc.Encode(l)
 		}
 		events += len(lines)
+	}
+	for i := 0; i < *nfc; i++ {
+		id++
+		emit(flushCloseHistory(id))
 	}
 	// forced schedules are spread between the free-running histories
 	for i := 0; (i < *nfree || i < *nforced) && hangs < 3; i++ { // after 3 hung histories the verdict is clear
